@@ -635,6 +635,15 @@ class TermBuilder:
                     return base[3][int(t[3])]
             if base and base[0] == 'tuple' and t[3].isdigit() and int(t[3]) < len(base[1]):
                 return base[1][int(t[3])]
+            # slice destructuring: first(x).Some.0 == x[0];  split_first(x).Some.0 == (x[0], x[1..])
+            if base and base[0] == 'vfield' and base[2] == 'Some' and base[3] == '0' and t[2] == '' and t[3] in ('0', '1') \
+                    and base[1] and base[1][0] == 'call' and strip_generics(base[1][1]).endswith('::split_first') and len(base[1][2]) == 1:
+                x = base[1][2][0]
+                if t[3] == '0':
+                    return ('index', x, ('int', 0))
+                return ('index', x, ('agg', 'core::ops::range::RangeFrom', '', (('int', 1),), ('start',)))
+            if t[2] == 'Some' and t[3] == '0' and base and base[0] == 'call' and strip_generics(base[1]).endswith('::first') and 'slice' in base[1] and len(base[2]) == 1:
+                return ('index', base[2][0], ('int', 0))
             # captured variable of a closure value built in this body (closure bodies inlined by a normal form)
             if base and base[0] == 'closure' and t[3].isdigit() and int(t[3]) < len(base[2]):
                 return base[2][int(t[3])]
